@@ -18,11 +18,18 @@ open Poetry Marker
 /-- no single quote -/
 def SqOk (v : String) : Prop := ∀ c ∈ v.toList, c ≠ '\''
 
-/-- **lexable value**: it can stand between double quotes (no `"`, no backslash, no newline — `ESCAPED_STRING`),
-or it holds a double quote — then `_quoted` prints it between single quotes — and no single quote
-(`SINGLE_QUOTED_STRING` = `'[^']*'`, which accepts backslashes and newlines).  A value with a backslash and no
-double quote, or with both quote characters, is NOT lexable: see the counterexamples in Props/C19lex.lean. -/
-def LexVal (v : String) : Prop := ValOk v ∨ (v.toList.contains '"' = true ∧ SqOk v)
+/-- the `ESCAPED_STRING` reading of `l` followed by a closing quote returns `l` (`b`: an odd run of backslashes
+precedes) -/
+def EscL (b : Bool) (l : List Char) : Prop := ∀ rest, escapedQuoted b (l ++ '"' :: rest) = some (l, rest)
+
+/-- the value can be read back between double quotes -/
+def EscOk (v : String) : Prop := EscL false v.toList
+
+/-- **lexable value** (for the printing of repo fixes 3046ca3 / 7b51c5a): the quote `_quoted` chooses reads the
+value back — single quotes (chosen when the value holds no `'` and holds a `"` or a backslash;
+`SINGLE_QUOTED_STRING` = `'[^']*'` accepts everything but `'`), or double quotes and the `ESCAPED_STRING`
+reading returns the value (no newline, every inner `"` behind an odd run of backslashes, no odd run at the end). -/
+def LexVal (v : String) : Prop := (quoteOf v = "'" ∧ SqOk v) ∨ (quoteOf v = "\"" ∧ EscOk v)
 
 theorem singleQuoted_ok (l rest : List Char) (h : ∀ c ∈ l, c ≠ '\'') :
     singleQuoted (l ++ '\'' :: rest) = some (l, rest) := by
@@ -36,34 +43,43 @@ theorem singleQuoted_ok (l rest : List Char) (h : ∀ c ∈ l, c ≠ '\'') :
     · simp [this]
     all_goals simp_all
 
-theorem markerValue_sq (v rest : List Char) (h : ∀ c ∈ v, c ≠ '\'') :
-    markerValue ('\'' :: (v ++ '\'' :: rest)) = some (String.ofList v, rest) := by
-  simp [markerValue, singleQuoted_ok v rest h]
+/-- reading the printed value back with quote character `q` -/
+def ReadBack (q : Char) (v : String) : Prop :=
+  (q = '"' ∨ q = '\'') ∧ ∀ rest, markerValue (q :: (v.toList ++ q :: rest)) = some (v, rest)
 
-/-- `name op 'value'` -/
-theorem parseItem_plain_sq (n op v : String) (hn : n ∈ names) (ho : op ∈ ops) (hv : SqOk v) (rest : List Char) :
-    parseItem (n.toList ++ ' ' :: (op.toList ++ ' ' :: '\'' :: (v.toList ++ '\'' :: rest))) =
+theorem readBack_sq {v : String} (h : SqOk v) : ReadBack '\'' v :=
+  ⟨.inr rfl, fun rest => by simp [markerValue, singleQuoted_ok v.toList rest h]⟩
+
+theorem readBack_dq {v : String} (h : EscOk v) : ReadBack '"' v :=
+  ⟨.inl rfl, fun rest => by simp [markerValue, h rest]⟩
+
+theorem skipWs_quote {q : Char} (hq : q = '"' ∨ q = '\'') (l : List Char) : skipWs (q :: l) = q :: l := by
+  rcases hq with rfl | rfl <;> simp [skipWs]
+
+/-- `name op <q>value<q>` -/
+theorem parseItem_plain_rb (q : Char) (n op v : String) (hn : n ∈ names) (ho : op ∈ ops) (hv : ReadBack q v)
+    (rest : List Char) :
+    parseItem (n.toList ++ ' ' :: (op.toList ++ ' ' :: q :: (v.toList ++ q :: rest))) =
       some (.item n op v false, rest) := by
-  have h0 := (name_head n hn (' ' :: (op.toList ++ ' ' :: '\'' :: (v.toList ++ '\'' :: rest)))).1
-  have h1 := matchName_sp n hn (op.toList ++ ' ' :: '\'' :: (v.toList ++ '\'' :: rest))
-  have h2 := matchOp_sp op ho ('\'' :: (v.toList ++ '\'' :: rest))
-  have h3 := markerValue_sq v.toList rest hv
+  have h0 := (name_head n hn (' ' :: (op.toList ++ ' ' :: q :: (v.toList ++ q :: rest)))).1
+  have h1 := matchName_sp n hn (op.toList ++ ' ' :: q :: (v.toList ++ q :: rest))
+  have h2 := matchOp_sp op ho (q :: (v.toList ++ q :: rest))
+  have h3 := hv.2 rest
   unfold parseItem
   simp only [h0, h1, skipWs_sp, op_head op ho, h2]
-  have e : skipWs ('\'' :: (v.toList ++ '\'' :: rest)) = '\'' :: (v.toList ++ '\'' :: rest) := by simp [skipWs]
-  simp only [e, h3, String.ofList_toList]
+  simp only [skipWs_quote hv.1, h3]
 
-/-- `'value' op name` -/
-theorem parseItem_swapped_sq (n op v : String) (hn : n ∈ names) (ho : op ∈ ops) (hv : SqOk v)
+/-- `<q>value<q> op name` -/
+theorem parseItem_swapped_rb (q : Char) (n op v : String) (hn : n ∈ names) (ho : op ∈ ops) (hv : ReadBack q v)
     (rest : List Char) (hr : NameStop rest) :
-    parseItem ('\'' :: (v.toList ++ '\'' :: ' ' :: (op.toList ++ ' ' :: (n.toList ++ rest)))) =
+    parseItem (q :: (v.toList ++ q :: ' ' :: (op.toList ++ ' ' :: (n.toList ++ rest)))) =
       some (.item n op v true, rest) := by
   have h1 := matchName_stop n hn rest hr
   have h2 := matchOp_sp op ho (n.toList ++ rest)
-  have h3 := markerValue_sq v.toList (' ' :: (op.toList ++ ' ' :: (n.toList ++ rest))) hv
+  have h3 := hv.2 (' ' :: (op.toList ++ ' ' :: (n.toList ++ rest)))
   have h4 := (name_head n hn rest).2.1
   unfold parseItem
-  simp only [h3, skipWs_sp, op_head op ho, h2, h4, h1, String.ofList_toList]
+  simp only [h3, skipWs_sp, op_head op ho, h2, h4, h1]
 
 /-- a text that is exactly one item -/
 theorem parseText_of_item (text : String) (a : Marker.Atom) (h : parseItem text.toList = some (a, []))
@@ -78,39 +94,34 @@ theorem parseText_of_item (text : String) (a : Marker.Atom) (h : parseItem text.
   rw [hf, parseSyn, parseAtom_item _ _ h1 h2, h]
   simp [hb, skipWs]
 
-theorem quoteOf_sq {v : String} (h : v.toList.contains '"' = true) (hs : SqOk v) : quoteOf v = "'" := by
-  unfold quoteOf
-  have h2 : v.toList.contains '\'' = false := by
-    cases hc : v.toList.contains '\'' with
-    | false => rfl
-    | true => exact absurd rfl (hs _ (List.contains_iff_mem.mp hc))
-  rw [h, h2]; simp
+theorem LexVal.readBack {v : String} (h : LexVal v) : ∃ q, (quoteOf v).toList = [q] ∧ ReadBack q v := by
+  rcases h with ⟨hq, h⟩ | ⟨hq, h⟩
+  · exact ⟨'\'', by rw [hq]; rfl, readBack_sq h⟩
+  · exact ⟨'"', by rw [hq]; rfl, readBack_dq h⟩
 
 /-- **the grammar reads back what `SingleMarker.__str__` prints**, for a grammar name, a grammar operator and a
 lexable value -/
 theorem parseText_leafText (n op v : String) (sw : Bool) (hn : n ∈ names) (ho : op ∈ ops) (hv : LexVal v) :
     parseText (leafText n op v sw) = .ok (.one (.item n op v sw)) := by
-  rcases hv with hv | ⟨hq, hv⟩
-  · have := Marker.parseText_text (.one (.item n op v sw)) ⟨hn, ho, hv⟩
-    simpa [Syn.text, Atom.text] using this
-  · cases sw with
-    | false =>
-      have ht : (leafText n op v false).toList =
-          n.toList ++ ' ' :: (op.toList ++ ' ' :: '\'' :: (v.toList ++ '\'' :: [])) := by
-        simp [leafText, quoteOf_sq hq hv, String.toList_append]
-      have hh := name_head n hn (' ' :: (op.toList ++ ' ' :: '\'' :: (v.toList ++ '\'' :: [])))
-      apply parseText_of_item
-      · rw [ht]; exact parseItem_plain_sq n op v hn ho hv []
-      · rw [ht]; exact hh.2.1
-      · rw [ht]; exact hh.2.2
-    | true =>
-      have ht : (leafText n op v true).toList =
-          '\'' :: (v.toList ++ '\'' :: ' ' :: (op.toList ++ ' ' :: (n.toList ++ []))) := by
-        simp [leafText, quoteOf_sq hq hv, String.toList_append]
-      apply parseText_of_item
-      · rw [ht]; exact parseItem_swapped_sq n op v hn ho hv [] (Or.inl rfl)
-      · rw [ht]; simp [skipWs]
-      · rw [ht]; intro r hr; cases hr
+  obtain ⟨q, hq, hrb⟩ := hv.readBack
+  cases sw with
+  | false =>
+    have ht : (leafText n op v false).toList =
+        n.toList ++ ' ' :: (op.toList ++ ' ' :: q :: (v.toList ++ q :: [])) := by
+      simp [leafText, String.toList_append, hq]
+    have hh := name_head n hn (' ' :: (op.toList ++ ' ' :: q :: (v.toList ++ q :: [])))
+    apply parseText_of_item
+    · rw [ht]; exact parseItem_plain_rb q n op v hn ho hrb []
+    · rw [ht]; exact hh.2.1
+    · rw [ht]; exact hh.2.2
+  | true =>
+    have ht : (leafText n op v true).toList =
+        q :: (v.toList ++ q :: ' ' :: (op.toList ++ ' ' :: (n.toList ++ []))) := by
+      simp [leafText, String.toList_append, hq]
+    apply parseText_of_item
+    · rw [ht]; exact parseItem_swapped_rb q n op v hn ho hrb [] (Or.inl rfl)
+    · rw [ht]; exact skipWs_quote hrb.1 _
+    · rw [ht]; intro r hr; rcases hrb.1 with rfl | rfl <;> cases hr
 
 /-! ## `invert` -/
 
@@ -431,22 +442,382 @@ theorem tryOps_op_prefix (s : List Char) : ∀ (l : List String) (o val : String
 
 /-! ## the leaves `_compact_markers` builds from a lexable syntax tree -/
 
-/-- value of an item of the input that keeps every derived leaf value lexable: no backslash, no newline, and
-not both quote characters (a `'…'` token never holds `'`; a `"…"` token holds `"` only behind a backslash) -/
-def InVal (v : String) : Prop :=
-  (∀ c ∈ v.toList, c ≠ '\\' ∧ c ≠ '\n') ∧ ((∀ c ∈ v.toList, c ≠ '"') ∨ (∀ c ∈ v.toList, c ≠ '\''))
+/-! ### the `ESCAPED_STRING` scanner -/
 
-theorem InVal.lex {v : String} (h : InVal v) : LexVal v := by
-  obtain ⟨h1, h2 | h2⟩ := h
-  · exact .inl (fun c hc => ⟨h2 c hc, (h1 c hc).1, (h1 c hc).2⟩)
-  · cases hq : v.toList.contains '"' with
-    | true => exact .inr ⟨hq, h2⟩
-    | false =>
-      refine .inl (fun c hc => ⟨?_, (h1 c hc).1, (h1 c hc).2⟩)
-      intro hcq
-      subst hcq
-      have := List.contains_iff_mem.mpr hc
-      rw [hq] at this; cases this
+theorem escapedQuoted_plain (b : Bool) (c : Char) (cs : List Char) (h1 : c ≠ '\n') (h2 : c ≠ '"') (h3 : c ≠ '\\') :
+    escapedQuoted b (c :: cs) =
+      (match escapedQuoted false cs with
+       | some (v, r) => some (c :: v, r)
+       | none => none) := by
+  rw [escapedQuoted]
+  all_goals first | rfl | simp_all
+
+/-- what the scanner returns can be scanned again (the token content is re-readable) -/
+theorem esc_roundtrip : ∀ (cs : List Char) (b : Bool) (v r : List Char), escapedQuoted b cs = some (v, r) →
+    EscL b v := by
+  intro cs
+  induction cs with
+  | nil => intro b v r h; simp [escapedQuoted] at h
+  | cons c cs ih =>
+    intro b v r h
+    by_cases hn : c = '\n'
+    · subst hn; simp [escapedQuoted] at h
+    by_cases hq : c = '"'
+    · subst hq
+      unfold escapedQuoted at h
+      cases b with
+      | true =>
+        simp only [if_true] at h
+        cases hr : escapedQuoted false cs with
+        | none => simp [hr] at h
+        | some p =>
+          obtain ⟨v', r'⟩ := p
+          simp only [hr, Option.some.injEq, Prod.mk.injEq] at h
+          obtain ⟨rfl, rfl⟩ := h
+          intro rest
+          have := ih false v' r' hr rest
+          simp only [List.cons_append]
+          unfold escapedQuoted
+          simp [this]
+      | false =>
+        simp only [Bool.false_eq_true, if_false, Option.some.injEq, Prod.mk.injEq] at h
+        obtain ⟨rfl, rfl⟩ := h
+        intro rest
+        simp [escapedQuoted]
+    by_cases hb : c = '\\'
+    · subst hb
+      unfold escapedQuoted at h
+      cases hr : escapedQuoted (!b) cs with
+      | none => simp [hr] at h
+      | some p =>
+        obtain ⟨v', r'⟩ := p
+        simp only [hr, Option.some.injEq, Prod.mk.injEq] at h
+        obtain ⟨rfl, rfl⟩ := h
+        intro rest
+        have := ih (!b) v' r' hr rest
+        simp only [List.cons_append]
+        unfold escapedQuoted
+        simp [this]
+    · rw [escapedQuoted_plain b c cs hn hq hb] at h
+      cases hr : escapedQuoted false cs with
+      | none => simp [hr] at h
+      | some p =>
+        obtain ⟨v', r'⟩ := p
+        simp only [hr, Option.some.injEq, Prod.mk.injEq] at h
+        obtain ⟨rfl, rfl⟩ := h
+        intro rest
+        have := ih false v' r' hr rest
+        simp only [List.cons_append]
+        rw [escapedQuoted_plain b c _ hn hq hb]
+        simp [this]
+
+/-- a character that is neither a quote nor a backslash nor a newline in front does not matter -/
+theorem escL_cons_plain {c : Char} {l : List Char} (h1 : c ≠ '\n') (h2 : c ≠ '"') (h3 : c ≠ '\\') :
+    EscL false (c :: l) ↔ EscL false l := by
+  constructor
+  · intro h rest
+    have := h rest
+    simp only [List.cons_append] at this
+    rw [escapedQuoted_plain false c _ h1 h2 h3] at this
+    cases hr : escapedQuoted false (l ++ '"' :: rest) with
+    | none => simp [hr] at this
+    | some p =>
+      obtain ⟨v', r'⟩ := p
+      simp only [hr, Option.some.injEq, Prod.mk.injEq, List.cons.injEq, true_and] at this
+      rw [this.1, this.2]
+  · intro h rest
+    simp only [List.cons_append]
+    rw [escapedQuoted_plain false c _ h1 h2 h3, h rest]
+
+/-- plain characters in front can be added or dropped -/
+theorem escL_drop_plain : ∀ (p l : List Char), (∀ c ∈ p, c ≠ '\n' ∧ c ≠ '"' ∧ c ≠ '\\') →
+    (EscL false (p ++ l) ↔ EscL false l) := by
+  intro p
+  induction p with
+  | nil => intro l _; simp
+  | cons c p ih =>
+    intro l h
+    have hc := h c (by simp)
+    simp only [List.cons_append]
+    rw [escL_cons_plain hc.1 hc.2.1 hc.2.2]
+    exact ih l (fun d hd => h d (by simp [hd]))
+
+/-- a re-readable text has no newline -/
+theorem escL_no_newline : ∀ (l : List Char) (b : Bool), EscL b l → ∀ c ∈ l, c ≠ '\n' := by
+  intro l
+  induction l with
+  | nil => intro b _ c hc; simp at hc
+  | cons d l ih =>
+    intro b h c hc
+    have h0 := h []
+    simp only [List.cons_append] at h0
+    by_cases hn : d = '\n'
+    · subst hn; simp [escapedQuoted] at h0
+    have tailOk : ∃ b', EscL b' l := by
+      by_cases hq : d = '"'
+      · subst hq
+        cases b with
+        | false => simp [escapedQuoted] at h0
+        | true =>
+          refine ⟨false, fun rest => ?_⟩
+          have := h rest
+          simp only [List.cons_append] at this
+          unfold escapedQuoted at this
+          simp only [if_true] at this
+          cases hr : escapedQuoted false (l ++ '"' :: rest) with
+          | none => simp [hr] at this
+          | some p =>
+            obtain ⟨v', r'⟩ := p
+            simp only [hr, Option.some.injEq, Prod.mk.injEq, List.cons.injEq, true_and] at this
+            rw [this.1, this.2]
+      by_cases hb : d = '\\'
+      · subst hb
+        refine ⟨!b, fun rest => ?_⟩
+        have := h rest
+        simp only [List.cons_append] at this
+        unfold escapedQuoted at this
+        cases hr : escapedQuoted (!b) (l ++ '"' :: rest) with
+        | none => simp [hr] at this
+        | some p =>
+          obtain ⟨v', r'⟩ := p
+          simp only [hr, Option.some.injEq, Prod.mk.injEq, List.cons.injEq, true_and] at this
+          rw [this.1, this.2]
+      · refine ⟨false, fun rest => ?_⟩
+        have := h rest
+        simp only [List.cons_append] at this
+        rw [escapedQuoted_plain b d _ hn hq hb] at this
+        cases hr : escapedQuoted false (l ++ '"' :: rest) with
+        | none => simp [hr] at this
+        | some p =>
+          obtain ⟨v', r'⟩ := p
+          simp only [hr, Option.some.injEq, Prod.mk.injEq, List.cons.injEq, true_and] at this
+          rw [this.1, this.2]
+    obtain ⟨b', hb'⟩ := tailOk
+    simp at hc
+    rcases hc with rfl | hc
+    · exact hn
+    · exact ih b' hb' c hc
+
+theorem escL_of_plain (l : List Char) (h : ∀ c ∈ l, c ≠ '"' ∧ c ≠ '\\' ∧ c ≠ '\n') : EscL false l :=
+  fun rest => escapedQuoted_ok l rest h
+
+/-! ### the value group of `_CONSTRAINT_RE_PATTERN_1`: the text minus a plain prefix, up to a newline -/
+
+/-- neither a quote nor a backslash -/
+def NoQB (c : Char) : Prop := c ≠ '"' ∧ c ≠ '\\' ∧ c ≠ '\''
+
+/-- `val` is `s` without its first `m` characters (all plain), cut at the first newline -/
+def CutOf (s : List Char) (val : List Char) : Prop :=
+  ∃ m, val = (s.drop m).takeWhile (· != '\n') ∧ ∀ c ∈ s.take m, NoQB c
+
+theorem dotPlusToEnd_eq (s v : List Char) (h : dotPlusToEnd? s = some v) : v = s.takeWhile (· != '\n') := by
+  unfold dotPlusToEnd? at h
+  simp only at h
+  split at h
+  · cases h
+  · split at h
+    · cases h; rfl
+    · cases h
+
+theorem countLeading_take (p : Char → Bool) : ∀ (s : List Char) (j : Nat), j ≤ countLeading p s →
+    ∀ c ∈ s.take j, p c = true := by
+  intro s
+  induction s with
+  | nil => intro j _ c hc; simp at hc
+  | cons d s ih =>
+    intro j hj c hc
+    cases j with
+    | zero => simp at hc
+    | succ j =>
+      unfold countLeading at hj
+      split at hj
+      · rename_i hd
+        simp at hc
+        rcases hc with rfl | hc
+        · exact hd
+        · exact ih j (by omega) c hc
+      · omega
+
+theorem spacesGo_cut (s : List Char) : ∀ (fuel j : Nat) (v : List Char), spacesThenValue?.go s j fuel = some v →
+    ∃ j', j' ≤ j ∧ v = (s.drop j').takeWhile (· != '\n') := by
+  intro fuel
+  induction fuel with
+  | zero => intro j v h; simp [spacesThenValue?.go] at h
+  | succ f ih =>
+    intro j v h
+    unfold spacesThenValue?.go at h
+    split at h
+    · rename_i w hw
+      cases h
+      exact ⟨j, Nat.le_refl _, dotPlusToEnd_eq _ _ hw⟩
+    · split at h
+      · cases h
+      · obtain ⟨j', hj', hv⟩ := ih _ _ h
+        exact ⟨j', by omega, hv⟩
+
+theorem isSpace_noQB (c : Char) (h : isSpace c = true) : NoQB c := by
+  refine ⟨?_, ?_, ?_⟩ <;> (intro hc; subst hc; revert h; decide)
+
+theorem spacesThenValue_cut (s v : List Char) (h : spacesThenValue? s = some v) : CutOf s v := by
+  obtain ⟨j', hj', hv⟩ := spacesGo_cut s _ _ v h
+  exact ⟨j', hv, fun c hc => isSpace_noQB c (countLeading_take isSpace s j' hj' c hc)⟩
+
+theorem lowerChar_noQB (c : Char) (h : NoQB (lowerChar c)) : NoQB c := by
+  refine ⟨?_, ?_, ?_⟩
+  · intro hc; subst hc; exact h.1 (by decide)
+  · intro hc; subst hc; exact h.2.1 (by decide)
+  · intro hc; subst hc; exact h.2.2 (by decide)
+
+theorem mem_takeWhile_pred {p : Char → Bool} : ∀ (l : List Char) (c : Char), c ∈ l.takeWhile p → p c = true := by
+  intro l
+  induction l with
+  | nil => intro c hc; simp at hc
+  | cons d l ih =>
+    intro c hc
+    rw [List.takeWhile_cons] at hc
+    split at hc
+    · rename_i hd
+      simp at hc
+      rcases hc with rfl | hc
+      · exact hd
+      · exact ih c hc
+    · simp at hc
+
+theorem takeWhile_all {p : Char → Bool} : ∀ (l : List Char), (∀ c ∈ l, p c = true) → l.takeWhile p = l := by
+  intro l
+  induction l with
+  | nil => intro _; rfl
+  | cons d l ih =>
+    intro h
+    rw [List.takeWhile_cons, if_pos (h d (by simp)), ih (fun c hc => h c (by simp [hc]))]
+
+theorem pattern1Ops_plain : ∀ p ∈ pattern1Ops, ∀ c ∈ lowerStr p.toList, c ≠ '"' ∧ c ≠ '\\' ∧ c ≠ '\'' := by
+  decide
+
+theorem cutOf_drop (s : List Char) (k : Nat) (v : List Char) (hk : ∀ c ∈ s.take k, NoQB c)
+    (h : CutOf (s.drop k) v) : CutOf s v := by
+  obtain ⟨m, hv, hm⟩ := h
+  refine ⟨k + m, by rw [hv, List.drop_drop], ?_⟩
+  intro c hc
+  rw [List.take_add] at hc
+  simp only [List.mem_append] at hc
+  rcases hc with hc | hc
+  · exact hk c hc
+  · exact hm c hc
+
+theorem tryOps_cut (s : List Char) : ∀ (l : List String), (∀ p ∈ l, p ∈ pattern1Ops) →
+    ∀ (og : Option String) (val : String), matchPattern1.tryOps s l = some (og, val) → CutOf s val.toList := by
+  intro l
+  induction l with
+  | nil =>
+    intro _ og val h
+    unfold matchPattern1.tryOps at h
+    split at h
+    · rename_i v hv
+      cases h
+      simpa using spacesThenValue_cut _ _ hv
+    · cases h
+  | cons o rest ih =>
+    intro hl og val h
+    unfold matchPattern1.tryOps at h
+    split at h
+    · rename_i orig r hs
+      split at h
+      · rename_i v hv
+        cases h
+        simp only [String.toList_ofList]
+        unfold stripPrefixCI? at hs
+        split at hs
+        · rename_i hc
+          cases hs
+          simp only [Bool.and_eq_true, decide_eq_true_eq, beq_iff_eq] at hc
+          apply cutOf_drop s o.toList.length v _ (spacesThenValue_cut _ _ hv)
+          intro c hc'
+          apply lowerChar_noQB
+          have hmem : lowerChar c ∈ lowerStr (s.take o.toList.length) := by
+            unfold lowerStr; exact List.mem_map_of_mem hc'
+          rw [hc.2] at hmem
+          exact pattern1Ops_plain o (hl o (by simp)) _ hmem
+        · cases hs
+      · exact ih (fun p hp => hl p (by simp [hp])) _ _ h
+    · exact ih (fun p hp => hl p (by simp [hp])) _ _ h
+
+theorem matchPattern1_cut (s : List Char) (og : Option String) (val : String)
+    (h : matchPattern1 s = some (og, val)) : CutOf s val.toList :=
+  tryOps_cut s _ (fun p hp => hp) og val h
+
+/-! ### values of the input tokens, and the leaves built from them -/
+
+/-- what a string token of the marker grammar can hold: no `'` (`SINGLE_QUOTED_STRING`), or a text the
+`ESCAPED_STRING` scanner reads back (`ESCAPED_STRING`) -/
+def TokVal (v : String) : Prop := SqOk v ∨ EscL false v.toList
+
+theorem quoteOf_sq_inv {v : String} (h : quoteOf v = "'") : SqOk v := by
+  unfold quoteOf at h
+  split at h
+  · rename_i hc
+    simp only [Bool.and_eq_true, Bool.not_eq_true'] at hc
+    intro c hcm hce
+    subst hce
+    have := List.contains_iff_mem.mpr hcm
+    rw [hc.1] at this; cases this
+  · exact absurd h (by decide)
+
+theorem quoteOf_dq_inv {v : String} (h : quoteOf v = "\"") (hs : SqOk v) :
+    ∀ c ∈ v.toList, c ≠ '"' ∧ c ≠ '\\' := by
+  unfold quoteOf at h
+  split at h
+  · exact absurd h (by decide)
+  · rename_i hc
+    have h1 : v.toList.contains '\'' = false := by
+      cases hq : v.toList.contains '\'' with
+      | false => rfl
+      | true => exact absurd rfl (hs _ (List.contains_iff_mem.mp hq))
+    simp only [h1, Bool.not_false, Bool.true_and, Bool.or_eq_true, not_or, Bool.not_eq_true] at hc
+    intro c hcm
+    refine ⟨?_, ?_⟩ <;> (intro hce; subst hce; have := List.contains_iff_mem.mpr hcm; simp_all)
+
+/-- a value cut out of `plain prefix ++ token value` is lexable -/
+theorem lexVal_of_cut (pre w : List Char) (val : String) (hpre : ∀ c ∈ pre, c ≠ '\n' ∧ NoQB c)
+    (hw : (∀ c ∈ w, c ≠ '\'') ∨ EscL false w) (hcut : CutOf (pre ++ w) val.toList) : LexVal val := by
+  obtain ⟨m, hv, hm⟩ := hcut
+  have hnl : ∀ c ∈ val.toList, c ≠ '\n' := by
+    intro c hc
+    rw [hv] at hc
+    have := mem_takeWhile_pred _ c hc
+    simpa using this
+  rcases quoteOf_cases val with hq | hq
+  · refine .inr ⟨hq, ?_⟩
+    rcases hw with hw | hw
+    · -- no single quote anywhere: double quotes were chosen because the value is plain
+      have hsq : SqOk val := by
+        intro c hc
+        rw [hv] at hc
+        have hc' := (List.drop_sublist _ _).subset ((List.takeWhile_sublist _).subset hc)
+        simp only [List.mem_append] at hc'
+        rcases hc' with hc' | hc'
+        · exact (hpre c hc').2.2.2
+        · exact hw c hc'
+      have := quoteOf_dq_inv hq hsq
+      exact escL_of_plain _ (fun c hc => ⟨(this c hc).1, (this c hc).2, hnl c hc⟩)
+    · -- an `ESCAPED_STRING` value: dropping plain characters keeps it re-readable
+      have hall : EscL false (pre ++ w) :=
+        (escL_drop_plain pre w (fun c hc => ⟨(hpre c hc).1, (hpre c hc).2.1, (hpre c hc).2.2.1⟩)).2 hw
+      have hall' : EscL false ((pre ++ w).take m ++ (pre ++ w).drop m) := by
+        rw [List.take_append_drop]; exact hall
+      have hnoall := escL_no_newline _ false hall
+      have hdrop : EscL false ((pre ++ w).drop m) := by
+        refine (escL_drop_plain _ _ ?_).1 hall'
+        intro c hc
+        have hnq := hm c hc
+        exact ⟨hnoall c ((List.take_sublist _ _).subset hc), hnq.1, hnq.2.1⟩
+      have hno := escL_no_newline _ false hdrop
+      have : ((pre ++ w).drop m).takeWhile (· != '\n') = (pre ++ w).drop m :=
+        takeWhile_all _ (fun c hc => by simpa using hno c hc)
+      unfold EscOk
+      rw [hv, this]
+      exact hdrop
+  · exact .inl ⟨hq, quoteOf_sq_inv hq⟩
 
 theorem ops_chars_clean : ∀ op ∈ ops, ∀ c ∈ op.toList, c ≠ '\\' ∧ c ≠ '\n' ∧ c ≠ '"' ∧ c ≠ '\'' := by decide
 
@@ -454,38 +825,72 @@ theorem ops_head_not_tilde : ∀ op ∈ ops, op ≠ "~=" → op.toList.head? ≠
 
 theorem alias_names : ∀ n ∈ names, aliasName n ∈ names := by decide
 
-/-- **a leaf built from a grammar item with a clean value is lexable** (items `name op "value"`) -/
-theorem mkSingle_lexLeaf (n op v : String) (hn : n ∈ names) (ho : op ∈ ops) (hop : op ≠ "~=") (hv : InVal v)
+/-- plain text: no quote, no backslash, no newline -/
+def PlainStr (v : String) : Prop := ∀ c ∈ v.toList, c ≠ '"' ∧ c ≠ '\\' ∧ c ≠ '\n' ∧ c ≠ '\''
+
+theorem isDigit_plain (c : Char) (h : isDigit c = true) : c ≠ '"' ∧ c ≠ '\\' ∧ c ≠ '\n' ∧ c ≠ '\'' := by
+  refine ⟨?_, ?_, ?_, ?_⟩ <;> (intro hc; subst hc; revert h; decide)
+
+theorem PlainStr.lex {v : String} (h : PlainStr v) : LexVal v := by
+  have hq : quoteOf v = "\"" := quoteOf_dq (fun c hc => ⟨(h c hc).1, (h c hc).2.1⟩)
+  exact .inr ⟨hq, escL_of_plain _ (fun c hc => ⟨(h c hc).1, (h c hc).2.1, (h c hc).2.2.1⟩)⟩
+
+/-- the value `SingleMarker.__init__` stores (text not swapped): cut out of the constraint string, or — the
+`.0` padding of a short decimal `python_full_version` — plain -/
+theorem leafPrepare_value_cut (name cstr : String) (p : LeafPrep) (h : leafPrepare name cstr false = .ok p) :
+    (CutOf cstr.toList p.value.toList ∨ PlainStr p.value) ∧ p.name = aliasName name ∧
+    ∃ og val, matchPattern1 cstr.toList = some (og, val) ∧ p.op = og.getD "==" := by
+  unfold leafPrepare at h
+  simp only [Bool.false_eq_true, if_false] at h
+  cases hm : matchPattern1 cstr.toList with
+  | none => simp [hm] at h
+  | some pr =>
+    obtain ⟨og, val⟩ := pr
+    have hcut := matchPattern1_cut _ og val hm
+    simp only [hm] at h
+    repeat' split at h
+    all_goals first
+      | (cases h; done)
+      | (cases h; exact ⟨.inl hcut, rfl, og, val, rfl, rfl⟩)
+      | (rename_i hdec
+         cases h
+         refine ⟨.inr ?_, rfl, og, val, rfl, rfl⟩
+         simp only [Bool.and_eq_true, decide_eq_true_eq] at hdec
+         have hd := hdec.2
+         unfold isDecimalAscii at hd
+         simp only [Bool.and_eq_true, List.all_eq_true] at hd
+         intro c hc
+         simp only [String.toList_append, List.mem_append] at hc
+         rcases hc with hc | hc
+         · by_cases hdot : c = '.'
+           · subst hdot; decide
+           · exact isDigit_plain c (hd.2 c (List.mem_filter.2 ⟨hc, by simpa using hdot⟩))
+         · rcases join_dotzero_chars _ c hc with rfl | rfl <;> decide)
+
+theorem mkSingle_value_cut (name cstr : String) (s : Single) (h : mkSingle name cstr false = .ok s) :
+    (CutOf cstr.toList s.value.toList ∨ PlainStr s.value) ∧ s.name = aliasName name ∧
+    ∃ og val, matchPattern1 cstr.toList = some (og, val) ∧ s.op = og.getD "==" := by
+  unfold mkSingle at h
+  obtain ⟨p, hp, h⟩ := bind_ok _ _ _ h
+  obtain ⟨c, _, h⟩ := bind_ok _ _ _ h
+  simp only [pure, Except.pure, Except.ok.injEq] at h
+  subst h
+  exact leafPrepare_value_cut name cstr p hp
+
+/-- **a leaf built from a grammar item is lexable** (items `name op <string token>`, operator not `~=`), whatever
+the token holds -/
+theorem mkSingle_lexLeaf (n op v : String) (hn : n ∈ names) (ho : op ∈ ops) (hop : op ≠ "~=") (hv : TokVal v)
     (s : Single) (h : mkSingle n (itemConstraintString op v false) false = .ok s) : LexLeaf (.single s) := by
-  obtain ⟨hsub, hname, og, val, hm, hso⟩ := mkSingle_value_sub n _ s h
+  obtain ⟨hval, hname, og, val, hm, hso⟩ := mkSingle_value_cut n _ s h
   have hcs : (itemConstraintString op v false).toList = op.toList ++ v.toList := by
     simp [itemConstraintString, String.toList_append]
-  refine ⟨by rw [hname]; exact alias_names n hn, InVal.lex ?_, ?_⟩
-  · have hcl := ops_chars_clean op ho
-    have key : ∀ c ∈ s.value.toList, c ∈ v.toList ∨ (c ≠ '\\' ∧ c ≠ '\n' ∧ c ≠ '"' ∧ c ≠ '\'') := by
-      intro c hc
-      rcases hsub c hc with h' | h' | h'
-      · rw [hcs] at h'
-        simp only [List.mem_append] at h'
-        rcases h' with h' | h'
-        · exact .inr (hcl c h')
-        · exact .inl h'
-      · subst h'; exact .inr (by decide)
-      · subst h'; exact .inr (by decide)
-    obtain ⟨h1, h2⟩ := hv
-    refine ⟨fun c hc => ?_, ?_⟩
-    · rcases key c hc with h' | h'
-      · exact h1 c h'
-      · exact ⟨h'.1, h'.2.1⟩
-    · rcases h2 with h2 | h2
-      · left; intro c hc
-        rcases key c hc with h' | h'
-        · exact h2 c h'
-        · exact h'.2.2.1
-      · right; intro c hc
-        rcases key c hc with h' | h'
-        · exact h2 c h'
-        · exact h'.2.2.2
+  refine ⟨by rw [hname]; exact alias_names n hn, ?_, ?_⟩
+  · rcases hval with hcut | hpl
+    · rw [hcs] at hcut
+      have hcl := ops_chars_clean op ho
+      exact lexVal_of_cut op.toList v.toList s.value
+        (fun c hc => ⟨(hcl c hc).2.1, (hcl c hc).2.2.1, (hcl c hc).1, (hcl c hc).2.2.2⟩) hv hcut
+    · exact hpl.lex
   · intro hto
     rw [hso] at hto
     cases og with
@@ -513,10 +918,10 @@ theorem mkSingle_lexLeaf (n op v : String) (hn : n ∈ names) (ho : op ∈ ops) 
           exact hne (by simp [← hk.1])
 
 mutual
-/-- **lexable input**: every item is `name op "value"` (not swapped) with a grammar name, a grammar operator
-other than `~=`, and a value without backslash or newline and not holding both quote characters -/
+/-- **plain input**: every item is `name op <string token>` (not swapped) with a grammar name, a grammar operator
+other than `~=`, and a token value (`TokVal` — what the grammar's string tokens hold, see `parseText_tok`) -/
 def AtomLexIn : Marker.Atom → Prop
-  | .item n op v sw => n ∈ names ∧ op ∈ ops ∧ op ≠ "~=" ∧ sw = false ∧ InVal v
+  | .item n op v sw => n ∈ names ∧ op ∈ ops ∧ op ≠ "~=" ∧ sw = false ∧ TokVal v
   | .paren m => SynLexIn m
 def SynLexIn : Syn → Prop
   | .one a => AtomLexIn a
@@ -677,5 +1082,152 @@ theorem exists_ok_of_isOkB {α : Type} (x : PyM α) (h : isOkB x = true) : ∃ a
   cases x with
   | ok a => exact ⟨a, rfl⟩
   | error e => simp [isOkB] at h
+
+/-! ## what the grammar returns -/
+
+mutual
+/-- every item carries a grammar name, a grammar operator and a token value -/
+def AtomTok : Marker.Atom → Prop
+  | .item n op v _ => n ∈ names ∧ op ∈ ops ∧ TokVal v
+  | .paren m => SynTok m
+def SynTok : Syn → Prop
+  | .one a => AtomTok a
+  | .more a _ rest => AtomTok a ∧ SynTok rest
+end
+
+mutual
+/-- no swapped item, no `~=` (decidable on the tree) -/
+def AtomPlain : Marker.Atom → Bool
+  | .item _ op _ sw => op != "~=" && !sw
+  | .paren m => SynPlain m
+def SynPlain : Syn → Bool
+  | .one a => AtomPlain a
+  | .more a _ rest => AtomPlain a && SynPlain rest
+end
+
+mutual
+theorem atomLexIn_of : ∀ (a : Marker.Atom), AtomTok a → AtomPlain a = true → AtomLexIn a
+  | .item n op v sw, ht, hp => by
+    simp only [AtomPlain, Bool.and_eq_true, bne_iff_ne, ne_eq, Bool.not_eq_true'] at hp
+    exact ⟨ht.1, ht.2.1, hp.1, hp.2, ht.2.2⟩
+  | .paren m, ht, hp => synLexIn_of m ht (by simpa [AtomPlain] using hp)
+theorem synLexIn_of : ∀ (m : Syn), SynTok m → SynPlain m = true → SynLexIn m
+  | .one a, ht, hp => atomLexIn_of a ht (by simpa [SynPlain] using hp)
+  | .more a _ rest, ht, hp => by
+    simp only [SynPlain, Bool.and_eq_true] at hp
+    exact ⟨atomLexIn_of a ht.1 hp.1, synLexIn_of rest ht.2 hp.2⟩
+end
+
+theorem matchWord_mem (ws : List String) : ∀ (s : List Char) (w : String) (r : List Char),
+    matchWord ws s = some (w, r) → w ∈ ws := by
+  induction ws with
+  | nil => intro s w r h; simp [matchWord] at h
+  | cons x xs ih =>
+    intro s w r h
+    unfold matchWord at h
+    split at h
+    · simp only [Option.some.injEq, Prod.mk.injEq] at h; simp [h.1]
+    · simp [ih s w r h]
+
+theorem singleQuoted_out : ∀ (cs v r : List Char), singleQuoted cs = some (v, r) → ∀ c ∈ v, c ≠ '\'' := by
+  intro cs
+  induction cs with
+  | nil => intro v r h; simp [singleQuoted] at h
+  | cons d cs ih =>
+    intro v r h
+    by_cases hd : d = '\''
+    · subst hd
+      simp only [singleQuoted, Option.some.injEq, Prod.mk.injEq] at h
+      intro c hc; rw [← h.1] at hc; simp at hc
+    · rw [singleQuoted] at h
+      · cases hr : singleQuoted cs with
+        | none => simp [hr] at h
+        | some p =>
+          obtain ⟨v', r'⟩ := p
+          simp only [hr, Option.some.injEq, Prod.mk.injEq] at h
+          intro c hc
+          rw [← h.1] at hc
+          simp at hc
+          rcases hc with rfl | hc
+          · exact hd
+          · exact ih v' r' hr c hc
+      all_goals simp_all
+
+theorem markerValue_tok (s : List Char) (v : String) (r : List Char) (h : markerValue s = some (v, r)) :
+    TokVal v := by
+  unfold markerValue at h
+  split at h
+  · rename_i r0
+    cases hr : singleQuoted r0 with
+    | none => simp [hr] at h
+    | some p =>
+      obtain ⟨l, r'⟩ := p
+      simp only [hr, Option.map_some, Option.some.injEq, Prod.mk.injEq] at h
+      left
+      intro c hc
+      rw [← h.1] at hc
+      simp only [String.toList_ofList] at hc
+      exact singleQuoted_out _ _ _ hr c hc
+  · rename_i r0
+    cases hr : escapedQuoted false r0 with
+    | none => simp [hr] at h
+    | some p =>
+      obtain ⟨l, r'⟩ := p
+      simp only [hr, Option.map_some, Option.some.injEq, Prod.mk.injEq] at h
+      right
+      rw [← h.1]
+      simp only [String.toList_ofList]
+      exact esc_roundtrip _ _ _ _ hr
+  · cases h
+
+theorem parseItem_tok (s : List Char) (a : Marker.Atom) (r : List Char) (h : parseItem s = some (a, r)) :
+    AtomTok a := by
+  unfold parseItem at h
+  repeat' split at h
+  all_goals first
+    | (cases h; done)
+    | (cases h
+       exact ⟨matchWord_mem _ _ _ _ (by assumption), matchWord_mem _ _ _ _ (by assumption),
+         markerValue_tok _ _ _ (by assumption)⟩)
+
+theorem parse_tok : ∀ (f : Nat),
+    (∀ s a r, parseAtom f s = some (a, r) → AtomTok a) ∧ (∀ s m r, parseSyn f s = some (m, r) → SynTok m) := by
+  intro f
+  induction f with
+  | zero => exact ⟨fun s a r h => by simp [parseAtom] at h, fun s m r h => by simp [parseSyn] at h⟩
+  | succ f ih =>
+    have hA : ∀ s a r, parseAtom (f + 1) s = some (a, r) → AtomTok a := by
+      intro s a r h
+      rw [parseAtom] at h
+      split at h
+      · split at h
+        · split at h
+          · cases h
+            exact ih.2 _ _ _ (by assumption)
+          · cases h
+        · cases h
+      · exact parseItem_tok _ _ _ h
+    refine ⟨hA, ?_⟩
+    intro s m r h
+    rw [parseSyn] at h
+    split at h
+    · cases h
+    · split at h
+      · split at h
+        · cases h
+          exact ⟨ih.1 _ _ _ (by assumption), ih.2 _ _ _ (by assumption)⟩
+        · cases h
+      · cases h
+        exact ih.1 _ _ _ (by assumption)
+
+/-- **every tree the grammar returns carries grammar names, grammar operators and token values** -/
+theorem parseText_tok (s : String) (syn : Syn) (h : parseText s = .ok syn) : SynTok syn := by
+  unfold parseText at h
+  simp only at h
+  split at h
+  · split at h
+    · cases h; exact (parse_tok _).2 _ _ _ (by assumption)
+    · cases h
+  · cases h
 
 end Poetry.ParserTotal
